@@ -96,7 +96,7 @@ def image_case(src, asan, idx, seed, tier):
 def journal_case(src, asan, idx, seed, tier):
     """journals with damaged blocks, and the log that consists of descriptor blocks only"""
     r = e2v.rng(seed, "c06j", idx)
-    name, opts, size = c03.BASES[idx % 2]
+    name, opts, size = c03.BASES[0 if idx % 8 == 7 else idx % 2]
     jimg = c03.JImage(c03.base_image(src, name, opts, size))
     mode = r.choice(["none", "v2", "v3"])
     inc = {"none": 0, "v2": INCOMPAT_CSUM2, "v3": INCOMPAT_CSUM3}[mode] | (INCOMPAT_64BIT if r.random() < 0.5 else 0)
@@ -110,9 +110,28 @@ def journal_case(src, asan, idx, seed, tier):
     d = bytearray(open(img, "rb").read())
     bs = jimg.fs.bs
     desc = []
-    if idx % 4 == 3:
+    if idx % 8 == 7:
         # every log block a valid descriptor of the expected sequence: the scan pass never meets an end
-        blk = enc_desc(cfg, 5, [{"blk": targets[0], "flags": 8}]) if False else None
+        cfgc = Cfg(jimg.bs, jimg.first, jimg.maxlen, jimg.uuid, 0, 5, 0)
+        blk, _, _ = enc_desc(cfgc, 5, [{"blk": targets[0], "data": b"\x55" * bs}])
+        for lb in range(jimg.first, jimg.maxlen):
+            d[jimg.map[lb] * bs:(jimg.map[lb] + 1) * bs] = blk
+        jsb = bytearray(d[jimg.map[0] * bs:jimg.map[0] * bs + 1024])
+        struct.pack_into(">II", jsb, 0x18, 5, jimg.first)
+        compat, incompat, ro = struct.unpack_from(">III", jsb, 0x24)
+        struct.pack_into(">III", jsb, 0x24, compat, incompat & ~(INCOMPAT_64BIT | INCOMPAT_CSUM2 | INCOMPAT_CSUM3), ro)
+        jsb[0x50] = 0
+        struct.pack_into(">I", jsb, 0xFC, 0)
+        d[jimg.map[0] * bs:jimg.map[0] * bs + 1024] = jsb
+        open(img, "wb").write(d)
+        env = e2v.tool_env(src)
+        T = lambda p: os.path.join(asan, p)
+        bad = []
+        rc, why = run_san([T("e2fsck/e2fsck"), "-fy", img], env, timeout=40)
+        if why:
+            bad.append({"invocation": "e2fsck -fy journal", "why": why})
+        os.unlink(img)
+        return {"kind": "journal", "base": name, "journal": "none", "note": "every log block is a descriptor block of the expected sequence (no commit anywhere)", "damage": [], "case_index": idx}, bad, 1
     for _ in range(r.randint(1, 5)):
         lb = r.randrange(min(len(jimg.map), 40))
         o = jimg.map[lb] * bs + r.choice([0, 1, 4, 8, 12, 13, 16, 20, 24, 0x1C, 0x20, r.randrange(bs)])
@@ -236,6 +255,10 @@ def run(res, replay=None):
     ]
     res.cov["partial"] = ["this property is about the C runtime: proved is only the bounds logic of two parsers (directory record walk, journal tag counting); memory safety of the code is observed by sanitizers on the sampled inputs, not proved",
                           "mounted filesystems, block devices and 64k-block directories are outside the campaign"]
+    for nm, op, sz in c03.BASES[:2]:
+        c03.base_image(src, nm, op, sz)
+    for nm, op, sz in corrupt.IMG_CONFIGS:
+        corrupt.build_image(src, WORK, nm, op, sz, 1)
     rows, dbad = dirwalk_corr(src, hexe, mexe, seed, 40 if tier == "quick" else 2000)
     n_img, n_j, n_a = (40, 16, 12) if tier == "quick" else (4000, 1500, 800)
     with concurrent.futures.ThreadPoolExecutor(14) as ex:
